@@ -152,7 +152,29 @@ Definition run_load (lx rx : sx) : sx :=
    written minus the keys the reader removes, max_id is the largest object number of the merged table. *)
 Inductive op :=
 | OpSet (id : oid) (o : obj) | OpAdd (o : obj) | OpClone (id : oid) | OpSetKey (id : oid) (k : bytes) (o : obj)
-| OpRes (id : oid) | OpXobj (page : oid) (name : bytes) (x : oid).
+| OpRes (id : oid) | OpXobj (page : oid) (name : bytes) (x : oid) | OpGs (page : oid) (name : bytes) (x : oid).
+
+(* IncrementalDocument::add_graphics_state (src/incremental_document.rs), beside Model/Incremental.v's add_xobject:
+   Ok(()) also when the resources are not a dictionary (the `if let Ok` swallows it); inside, an ExtGState entry that
+   is not a DIRECT dictionary is an error (`get_mut(..).and_then(Object::as_dict_mut)?`: no reference is followed),
+   after the missing entry has been created.  Result: state, true = Ok *)
+Definition K_ExtGState := Eval cbv in bs "ExtGState".
+Definition add_graphics_state (s : incdoc) (page : oid) (name : bytes) (gid : oid) : incdoc * bool :=
+  match get_or_create_resources s page with
+  | (s1, Some rp) =>
+    match place_get (new_objects s1) rp with
+    | Some (ODict rd) =>
+      let rd1 := if dict_has rd K_ExtGState then rd else dict_set rd K_ExtGState (ODict []) in
+      match dict_get rd1 K_ExtGState with
+      | Some (ODict gd) =>
+        let rd2 := dict_set rd1 K_ExtGState (ODict (dict_set gd name (ORef (fst gid) (snd gid)))) in
+        (set_new_objects s1 (place_set (new_objects s1) rp (ODict rd2)), true)
+      | _ => (set_new_objects s1 (place_set (new_objects s1) rp (ODict rd1)), false)
+      end
+    | _ => (s1, true)
+    end
+  | (s1, None) => (s1, true)
+  end.
 
 Definition op_of_sx (x : sx) : option op :=
   match x with
@@ -169,6 +191,8 @@ Definition op_of_sx (x : sx) : option op :=
       match oid_of_sx a, as_bytes b, obj_of_sx c with Some i, Some k, Some o => Some (OpSetKey i k o) | _, _, _ => None end
     else if is_id t "xobj" then
       match oid_of_sx a, as_bytes b, oid_of_sx c with Some p, Some n, Some i => Some (OpXobj p n i) | _, _, _ => None end
+    else if is_id t "gs" then
+      match oid_of_sx a, as_bytes b, oid_of_sx c with Some p, Some n, Some i => Some (OpGs p n i) | _, _, _ => None end
     else None
   | _ => None
   end.
@@ -204,6 +228,7 @@ Definition apply_op (s : incdoc) (o : op) : option (incdoc * sx) :=
     | (s', None) => Some (s', sx_id "err")
     end
   | OpXobj p n i => let r := add_xobject s p n i in Some (fst r, sx_okerr (snd r))
+  | OpGs p n i => let r := add_graphics_state s p n i in Some (fst r, sx_okerr (snd r))
   end.
 
 Fixpoint apply_ops (s : incdoc) (ops : list op) (acc : list sx) : option (incdoc * list sx) :=
